@@ -46,6 +46,15 @@ func (vfs *OrefaFS) errNotFound(absPath string, notFound error) error {
 	vfs.mu.RLock()
 	defer vfs.mu.RUnlock()
 
+	return vfs.errNotFoundLocked(absPath, notFound)
+}
+
+// errNotFoundLocked is errNotFound for a caller that holds the index lock.
+func (vfs *OrefaFS) errNotFoundLocked(absPath string, notFound error) error {
+	if vfs.OSType() == avfs.OsWindows {
+		return notFound
+	}
+
 	dirName := absPath
 
 	for {
